@@ -226,6 +226,8 @@ func checkC15(c c15Case) error {
 		key := "own-key-rejected"
 		if hasIntBeyondInt64(mustParse(b1)) {
 			key = "own-key-rejected/bignum-beyond-int64"
+		} else if taggedMapKey(c.Wire) {
+			key = "own-key-rejected/tagged-map-key"
 		}
 		return finding(key, "re-encoded key is rejected: %v\n in=%x\nout=%x", err, []byte(c.Wire), b1)
 	}
